@@ -207,6 +207,22 @@ struct World
     o.role = RF_BUILT;
     o.default_like = false;
   }
+  // Copies of a FixedArray share their buffer on the pinned tree (shared_ptr member).  The statement does
+  // not say whether a copy sees later writes to the original, so a write is not in the alphabet while
+  // two different FixedArray objects designate the buffer (views onto the same object do alias it).
+  bool shared_between_arrays(const std::shared_ptr<MBuf> &b) const
+  {
+    const MObj *first = nullptr;
+    const MObj *objs[4] = {MP[0].get(), MP[1].get(), MW[0].live ? MW[0].obj.get() : nullptr, MW[1].live ? MW[1].obj.get() : nullptr};
+    for (const MObj *o : objs) {
+      if (!o || o->buf != b)
+        continue;
+      if (first && first != o)
+        return true;
+      first = o;
+    }
+    return false;
+  }
   std::vector<LL> src_range(int k, size_t off, size_t n) const { return std::vector<LL>(S.mv[k].begin() + off, S.mv[k].begin() + off + n); }
 
   bool apply(int opIndex)
@@ -306,7 +322,7 @@ struct World
       return true;
     }
     case F_WRITE: {
-      if (!MP[s] || MP[s]->n == 0)
+      if (!MP[s] || MP[s]->n == 0 || shared_between_arrays(MP[s]->buf))
         return false;
       LL x = S.fresh();
       (*P[s])[MP[s]->n - 1] = (T)x;
@@ -370,7 +386,7 @@ struct World
       MW[s] = MW[op.a];
       return true;
     case W_WRITE: {
-      if (!MW[s].live || MW[s].n == 0)
+      if (!MW[s].live || MW[s].n == 0 || shared_between_arrays(MW[s].buf))
         return false;
       // a write through a view whose array was re-assigned would be a write to freed memory on the
       // pinned tree; the read check of the previous step has already ended such histories
